@@ -48,6 +48,10 @@ def run(tier, seed):
     unops = ["", "-", "~", "-~", "~-", "--"]
     contexts = [{"x": 5, "x_1": 3, "y_": 11}, {"x": 2, "A": 1, "x_1": 7, "y_": 1, "_C": 5}, {"x": 9, "u": 4, "x_1": 1, "y_": 2}]
 
+    # identifier values need not be plain ints: enum / flag members and int subclasses parsed from data are used as ints
+    cs.load("flag FL : uint8 { R = 1, W = 2, X = 4 }; enum EN : int16 { NEG = -2, POS = 5 };")
+    contexts.append({"x": cs.FL.R, "x_1": cs.FL.W | cs.FL.X, "y_": cs.EN.NEG, "u": cs.uint8(7), "_C": cs.EN.POS})
+
     def check(s):
         for ci, c in enumerate(contexts):
             try:
@@ -91,6 +95,11 @@ def run(tier, seed):
                 else:
                     check(f"{big} {o} {sm}")
                     check(f"{big} * {sm} {o} {sm}")
+    for name in ("x", "x_1", "y_", "u"):
+        check(f"~{name}")
+        check(f"~{name} & 0xff")
+        check(f"-{name} + 1")
+        check(f"({name} | 8) ^ {name}")
     for name in ("x_1", "y_", "_C", "A_B"):
         for o in binops:
             check(f"{name} {o} 2")
